@@ -46,7 +46,15 @@ def gen_case(rng, nposes):
     return {"g": g, "steps": steps,
             "pairs": [[gen.taa(rng, 5.0).tolist(), np.concatenate([rng.uniform(-1, 1, 3) * g["rb"] + [0, 0, 1.5 * g["rb"]], rng.uniform(-0.5, 0.5, 3)]).tolist(),
                        gen.taa(rng, 5.0).tolist()] for _ in range(2)],
-            "rels": [splib.gen_rel_pose(rng, model.h).tolist() for _ in range(nposes)]}
+            "rels": [splib.gen_rel_pose(rng, model.h).tolist() for _ in range(nposes)] + [tilted_xy(rng, model.h)]}
+
+
+def tilted_xy(rng, h):
+    """A workspace pose tilted about BOTH x and y and pushed to the rim: where a Newton iteration with the wrong orientation
+    derivatives stops converging."""
+    lat = gen.rand_unit(rng, 2) * rng.uniform(0.14, 0.2) * h
+    return [float(lat[0]), float(lat[1]), float(h * (1 + rng.uniform(-0.15, 0.15))),
+            float(rng.choice([-1, 1]) * rng.uniform(0.18, 0.3)), float(rng.choice([-1, 1]) * rng.uniform(0.18, 0.3)), float(rng.uniform(-0.3, 0.3))]
 
 
 def run_case(case, ctx, bm):
@@ -138,6 +146,14 @@ def run_case(case, ctx, bm):
             viol("ik.invariance", "ik_invariance/" + state, err=e)
     # ---- FK inverts IK inside the workspace ----
     neutral = model.B @ model.neutral_rel()
+    uninverted = [False]
+    _orig_fix = getattr(sp, "_fixUpsideDown", None)
+    if _orig_fix is not None:
+        def _fix_rec(*a, **k):          # observation only: did the corrective 'un-invert' path run during this FK?
+            uninverted[0] = True
+            ctx.bump("corrective_paths", "un-invert")
+            return _orig_fix(*a, **k)
+        sp._fixUpsideDown = _fix_rec
     rels = list(case["rels"])
     bal = balanced_pose(model, g, rels[0])
     if bal is not None:
@@ -168,6 +184,7 @@ def run_case(case, ctx, bm):
             clause = "fk.recover.mode%d" % mode
             try:
                 sp.IK(top_plate_pos=tm(neutral.copy()), bottom_plate_pos=tm(model.B.copy()), protect=True)
+                uninverted[0] = False
                 top, v2 = sp.FK(L.copy(), fk_mode=mode)
                 got = top.gTM()
                 pub = sp.getTopT().gTM()
@@ -187,8 +204,15 @@ def run_case(case, ctx, bm):
             if not (dist <= 1e-3 * h and ang <= 1e-3 and dist2 <= 1e-3 * h and ang2 <= 1e-3 and le <= 1e-3 * h):
                 na, nd = se3.pose_dist(pub, neutral)
                 where = "reset_to_neutral" if (nd <= 1e-6 * h and na <= 1e-6) else "wrong_pose"
-                viol(clause, "fk_miss/mode%d/%s/%s/%s" % (mode, state, where, "valid" if v2 else "invalid"),
-                     pos_err_over_h=dist / h, rot_err=ang, len_err_over_h=le / h, published_pos_err_over_h=dist2 / h, rel=rel)
+                key = "fk_miss/mode%d/%s/%s/%s" % (mode, state, where, "valid" if v2 else "invalid")
+                # two mechanisms with findings of their own (keyed by what happened, not by where):
+                Lgot, _, _ = model.lengths(model.B, got)
+                if uninverted[0]:
+                    key = "fk_miss/solver_landed_upside_down_then_un-invert"
+                elif tol.maxabs(np.asarray(Lgot).reshape(-1) - L) <= 1e-6 * h and dist2 <= 1e-9 * h + dist and le <= 1e-6 * h:
+                    key = "fk_miss/other_assembly_mode"
+                viol(clause, key,
+                     pos_err_over_h=dist / h, rot_err=ang, len_err_over_h=le / h, published_pos_err_over_h=dist2 / h, rel=rel, state=state, where=where)
 
 
 def balanced_pose(model, g, rel):
